@@ -213,6 +213,10 @@ def build_structure(case, objs):
         return [objs[i] for i in st[0][1]]
     out = []
     for k, (kind, body) in enumerate(st):
+        if kind == 'R':
+            # the same Group OBJECT listed a second time
+            out.append(out[body[0]])
+            continue
         opts = GROUP_OPTS[(k + len(body)) % len(GROUP_OPTS)]
         if kind == 'F':
             out.append(Group([objs[i] for i in body], **opts))
@@ -223,14 +227,37 @@ def build_structure(case, objs):
 
 
 def build_steppers(case, mod):
+    """(keyword, stepper object) in keyword order.  Entries that carry the same
+    `obj` label (and name the same class) ARE one Python object handed to
+    several arrays -- `step = St(); Integrator(fluid=step, solid=step)`;
+    entries without a label, or with different labels, are separate objects
+    (also when they are of one class)."""
     out = []
+    shared = {}
     for s in case.get('steppers') or []:
-        if 'shipped' in s:
-            cls = load_cls(s['shipped'])
-            o = cls.__new__(cls)
+        key = None if s.get('obj') is None else \
+            (s['obj'], s.get('shipped') or s['cls'])
+        if key is not None and key in shared:
+            o = shared[key]
         else:
-            o = getattr(mod, s['cls'])()
+            if 'shipped' in s:
+                cls = load_cls(s['shipped'])
+                o = cls.__new__(cls)
+            else:
+                o = getattr(mod, s['cls'])()
+            if key is not None:
+                shared[key] = o
         out.append((s['dest'], o))
+    return out
+
+
+def object_ids(objs):
+    """identity structure of a list of objects: index of the first entry that
+    is the same object"""
+    first = {}
+    out = []
+    for i, o in enumerate(objs):
+        out.append(first.setdefault(id(o), i))
     return out
 
 
@@ -454,6 +481,8 @@ def run_impl(case):
             ssig.append({'dest': dest, 'cls': type(o).__name__, 'methods': ms,
                          'py': py})
         out['ssig'] = ssig
+        # which keywords were given one and the same stepper object
+        out['sobj'] = object_ids([o for _, o in steppers])
         a_eval = None
         a_evals = []
         with quiet():
@@ -549,11 +578,16 @@ def wire_eqs(sig):
     return nl(out, '^')
 
 
+def resolve_structure(st):
+    """['R', [k]] = the group object of entry k once more"""
+    return [st[body[0]] if kind == 'R' else [kind, body] for kind, body in st]
+
+
 def wire_structure(st):
     if st and st[0][0] == 'L':
         return 'F' + nl(map(str, st[0][1]), ',')
     out = []
-    for kind, body in st:
+    for kind, body in resolve_structure(st):
         if kind == 'F':
             out.append('F' + nl(map(str, body), ','))
         else:
@@ -569,6 +603,20 @@ def wire_steppers(ssig):
     return nl(out, '^')
 
 
+def wire_setup(ssig, sobj):
+    """O= the distinct stepper objects, K= keyword -> object, as OBSERVED on
+    the objects handed to Integrator(**kw) (`is`), not as the case says"""
+    firsts = [i for i, j in enumerate(sobj) if i == j]
+    objs = []
+    for i in firsts:
+        t = ssig[i]
+        ms = nl(('%s:%s' % (m, nl(a)) for m, a in t['methods'].items()), ',')
+        objs.append('~'.join([t['cls'], ms, nl(t['py'])]))
+    kw = ['%s:%d' % (t['dest'], firsts.index(sobj[i]))
+          for i, t in enumerate(ssig)]
+    return 'O=%s K=%s' % (nl(objs, '^'), nl(kw, '|'))
+
+
 def model_lines(case, impl):
     T = 'T=' + wire_table(impl['table'])
     A = 'A=' + wire_arrays(impl['arrays'])
@@ -582,7 +630,9 @@ def model_lines(case, impl):
              'checkorig %s %s %s' % (A, Q, P),
              'ktypes ' + A,
              'sdecl %s %s' % (A, S),
-             'sbind ' + S]
+             'sbind ' + S,
+             'ssetup %s %s' % (A, wire_setup(impl['ssig'],
+                                             impl.get('sobj') or []))]
     return lines
 
 
@@ -680,7 +730,7 @@ def flat_indices(st):
     if st and st[0][0] == 'L':
         return list(st[0][1])
     out = []
-    for kind, body in st:
+    for kind, body in resolve_structure(st):
         if kind == 'F':
             out += body
         else:
@@ -839,8 +889,19 @@ def oracle(case, impl, R):
         sp = [(s, stepper_problems(s, arrs)) for s in sv]
         alls = [p for _, ps in sp for p in ps]
         w = impl['step']
+        objs = [s.get('obj') for s in case['steppers']]
+        nshared = sum(1 for o in set(objs) if o is not None and
+                      objs.count(o) > 1)
+        if nshared:
+            R.count('oracle:stepper-object-shared-by-several-arrays')
         if alls:
             R.count('oracle:stepper-incomplete')
+            if nshared and any(ps and s0.get('obj') is not None and
+                               objs.count(s0['obj']) > 1 and
+                               objs.index(s0['obj']) != k
+                               for k, (s0, (_, ps)) in enumerate(
+                                   zip(case['steppers'], sp))):
+                R.count('oracle:stepper-incomplete:shared-object-not-first')
             if w[0] == 'ok':
                 ok = False
                 R.prop_fail('C20:stepper:accepted', case,
@@ -1032,6 +1093,15 @@ def rand_structure(rng, n):
         out.append(['F', []])
     if rng.random() < 0.15 and n:
         out.append(['F', [rng.randrange(n)]])     # an equation used twice
+    if rng.random() < 0.1:
+        # the same equation OBJECT twice in one group
+        g = rng.choice(out)
+        tgt = g[1] if g[0] == 'F' else (rng.choice(g[1]) if g[1] else None)
+        if tgt:
+            tgt.insert(rng.randrange(len(tgt) + 1), rng.choice(tgt))
+    if rng.random() < 0.1:
+        # the same Group OBJECT listed twice
+        out.append(['R', [rng.randrange(len(out))]])
     return out
 
 
@@ -1174,10 +1244,11 @@ def rand_stepper_methods(rng, syms):
     return ms
 
 
-def gen_synth_stepper_exhaustive(rng):
+def gen_synth_stepper_exhaustive(rng, shared=False):
     """the quantifier, literally, for a generated stepper class applied to
     two arrays: every name it needs (through d_* or s_*) x removal from the
-    second array while the first one keeps it"""
+    second array while the first one keeps it (shared: both keywords are
+    given one stepper object, and the incomplete array is either one)"""
     import copy
     syms = rng.sample(PROPS, 6) + rng.sample(CONSTS, 1)
     ms = rand_stepper_methods(rng, syms)
@@ -1197,12 +1268,21 @@ def gen_synth_stepper_exhaustive(rng):
                          for n in names],
             'arrays': [mk(n) for n in names],
             'label': 'synth-stepper:exhaustive'}
+    which = 1
+    if shared:
+        for s in base['steppers']:
+            s['obj'] = 0
+        base['label'] += '+shared-object'
+        which = rng.choice([0, 1, 1])
+        if rng.random() < 0.5:
+            base['integrator'] = rng.choice(
+                ['PECIntegrator', 'EPECIntegrator', 'TVDRK3Integrator'])
     out = [base]
     for n in sorted(need):
         c = copy.deepcopy(base)
         for key in ('props', 'consts'):
-            if n in c['arrays'][1][key]:
-                c['arrays'][1][key].remove(n)
+            if n in c['arrays'][which][key]:
+                c['arrays'][which][key].remove(n)
         out.append(c)
     return out
 
@@ -1232,6 +1312,11 @@ def gen_synth_case(rng, mode, synth_table=False, with_steppers=False):
                             'methods': {m: list(a) for m, a in
                                         t0['methods'].items()},
                             'py': list(t0['py'])})
+                if rng.random() < 0.5:
+                    # ... and it is one and the same stepper OBJECT
+                    # (step = St(); Integrator(a=step, b=step))
+                    t0.setdefault('obj', sts.index(t0))
+                    sts[-1]['obj'] = t0['obj']
                 continue
             sts.append({'dest': d, 'cls': 'St%d' % k,
                         'methods': rand_stepper_methods(rng, syms),
@@ -1351,6 +1436,23 @@ def gen_shipped_stepper_case(rng, cls, mode):
     elif mode == 'misspell':
         case['steppers'][0]['dest'] = misspell(rng, names[0])
         label = 'misspelt'
+    elif mode in ('shared', 'shared-remove', 'two-remove'):
+        # the class on both arrays: one object given to both keywords
+        # (shared*) or two objects of the class (two-remove); the incomplete
+        # array is the second-named one (mostly) or the first
+        case['steppers'].append({'shipped': spec, 'dest': names[1]})
+        if mode != 'two-remove':
+            for s in case['steppers']:
+                s['obj'] = 0
+        label = mode
+        if mode != 'shared' and rem:
+            k = rng.choice([0, 1, 1, 1])
+            for n in rng.sample(rem, rng.choice([1, 1, len(rem)])):
+                arrs[k]['props'].remove(n)
+        if rng.random() < 0.5:
+            case['integrator'] = rng.choice(
+                ['PECIntegrator', 'EPECIntegrator', 'TVDRK3Integrator'])
+        case['full'] = rng.random() < 0.5
     case['label'] = 'shipped-stepper:' + label
     return case
 
@@ -1415,6 +1517,34 @@ def corpus():
                  for n in ('f', 's')],
              arrays=[{'name': 'f', 'props': ['au', 'x'], 'consts': ['c0']},
                      {'name': 's', 'props': ['au', 'x'], 'consts': []}]),
+        # one stepper OBJECT given to two arrays, the second-named one lacks
+        # what it needs: the check is per (array, stepper), not per object
+        dict(base, label='corpus:shared-stepper-object', full=True,
+             integrator='PECIntegrator', eqs=[
+            {'cls': 'E0', 'dest': 'fluid', 'sources': None,
+             'methods': {'initialize': ['d_idx', 'd_au']}}],
+             structure=[['F', [0]]],
+             steppers=[{'shipped': 'pysph.sph.integrator_step:WCSPHStep',
+                        'dest': n, 'obj': 0} for n in ('fluid', 'solid')],
+             arrays=[{'name': 'fluid', 'consts': [], 'props': [
+                 'x', 'y', 'z', 'u', 'v', 'w', 'rho', 'x0', 'y0', 'z0', 'u0',
+                 'v0', 'w0', 'rho0', 'au', 'av', 'aw', 'ax', 'ay', 'az',
+                 'arho', 'h', 'm']},
+                     {'name': 'solid', 'consts': [], 'props': [
+                         'x', 'y', 'z', 'u', 'v', 'w', 'rho', 'au', 'av',
+                         'aw', 'ax', 'ay', 'az', 'arho', 'h', 'm']}]),
+        # the same with a generated class, three arrays, the middle one short
+        dict(base, label='corpus:shared-stepper-object-3', full=False, eqs=[
+            {'cls': 'E0', 'dest': 'f', 'sources': None,
+             'methods': {'initialize': ['d_idx', 'd_au']}}],
+             structure=[['F', [0]]],
+             steppers=[{'dest': n, 'cls': 'StSh', 'py': [], 'obj': 7,
+                        'methods': {'initialize': ['d_idx', 'd_x', 'd_x0'],
+                                    'stage2': ['d_idx', 'd_x', 's_x0', 'dt']}}
+                       for n in ('f', 's', 'b')],
+             arrays=[{'name': 'f', 'props': ['au', 'x', 'x0'], 'consts': []},
+                     {'name': 's', 'props': ['au', 'x'], 'consts': []},
+                     {'name': 'b', 'props': ['au', 'x', 'x0'], 'consts': []}]),
         dict(base, label='corpus:misspelt-dest', eqs=[
             dict(vij, dest='fluid')], structure=[['F', [0]]],
              arrays=[{'name': 'f', 'props': ['au', 'u', 'v', 'w'],
@@ -1446,6 +1576,7 @@ def check_case(case, impl, lines, mod, R, may_sample):
     m_sacc = parse_model_acc(mod[3])
     m_orig = parse_model_verdict(mod[4])
     m_kt, m_decl, m_bind = mod[5], mod[6], mod[7]
+    m_setup = mod[8].split(' | ')
     # keys of known_types (what the declaration sites look names up in)
     if impl.get('ktypes') is not None:
         got = sorted(set([] if m_kt == 'kt _' else m_kt[3:].split(';'))) \
@@ -1510,6 +1641,39 @@ def check_case(case, impl, lines, mod, R, may_sample):
             if got != want:
                 R.disagree({'case': case, 'line': lines[2]}, got, want,
                            'stepper verdict')
+            # the same through the object-level model: distinct stepper
+            # objects + keyword -> object; the model expands to (array,
+            # stepper) pairs
+            sobj = impl.get('sobj') or []
+            shared = len(set(sobj)) < len(sobj)
+            R.count('tie:stepper-setup-by-object')
+            if shared:
+                R.count('tie:stepper-setup-by-object:shared')
+            if len(m_setup) != 3:
+                R.disagree({'case': case, 'line': lines[8]}, m_setup, want,
+                           'stepper verdict (object-level model)')
+            else:
+                got2 = parse_model_verdict(m_setup[0])
+                per_obj = parse_model_verdict(m_setup[1])
+                if got2 != want:
+                    R.disagree({'case': case, 'line': lines[8]}, got2, want,
+                               'stepper verdict (object-level model: one '
+                               'check per keyword)')
+                    if per_obj == want:
+                        R.count('impl-behaves-like-check-per-stepper-object')
+                if per_obj != got2:
+                    R.count('per-object-check-would-differ')
+                if impl.get('sbind') is not None:
+                    mb = m_setup[2]
+                    gotb = sorted(set(tuple(x.split('.'))
+                                      for x in mb[5:].split(';'))
+                                  if mb != 'bind _' else []) \
+                        if mb.startswith('bind ') else mb
+                    ib = [tuple(x) for x in impl['sbind']]
+                    if gotb != ib:
+                        R.disagree({'case': case, 'line': lines[8]}, gotb, ib,
+                                   'pointer variables bound (object-level '
+                                   'model)')
             if impl.get('code_access') is not None and \
                     impl['saccess'] is not None and not case.get('stages'):
                 both = sorted(set(tuple(x) for x in impl['access']) |
@@ -1611,9 +1775,12 @@ def main():
         'arrays (properties + constants) x equations (shipped classes '
         'instantiated without __init__, or generated classes with random '
         'method signatures) x group structure (plain list, groups, '
-        'sub-groups, empty groups, repeated equations) x optional steppers '
-        '(shipped or generated; generated ones take d_* and s_* arguments, '
-        'constants, one class on several arrays, any shipped integrator '
+        'sub-groups, empty groups, the same equation object twice in a '
+        'group / in two groups, the same Group object twice) x optional '
+        'steppers (shipped or generated; generated ones take d_* and s_* '
+        'arguments, constants; one class on several arrays as separate '
+        'objects or as ONE stepper object given to several keywords, the '
+        'incomplete array named first or later; any shipped integrator '
         'class), made incomplete by removing one explicitly '
         'or implicitly needed name from the destination or one source (for '
         'steppers: a name reached through d_* or only through s_*, while '
@@ -1647,8 +1814,9 @@ def main():
         for mode in modes:
             cases.append(gen_shipped_case(rng, cls, mode))
     for cls in sts:
-        for mode in ['none', 'remove', 'misspell'] + (
-                [] if quick else ['remove'] * 4):
+        for mode in ['none', 'remove', 'misspell', 'shared', 'shared-remove',
+                     'two-remove'] + (
+                [] if quick else ['remove'] * 4 + ['shared-remove'] * 4):
             cases.append(gen_shipped_stepper_case(rng, cls, mode))
     # exhaustive removal: every class in the thorough tier, a seeded sample of
     # the classes in the quick tier
@@ -1670,6 +1838,7 @@ def main():
                                     with_steppers=True))
     for i in range(12 if quick else 150):
         cases += gen_synth_stepper_exhaustive(rng)
+        cases += gen_synth_stepper_exhaustive(rng, shared=True)
     for i in range(10):
         cases.append(gen_exact_case(rng))
     check_cases(cases, R, sample_from=ncorpus)
